@@ -14,9 +14,10 @@ import (
 // produced only when two different leaf contents are compared.
 
 type ropePiece struct {
-	c   *ByteFn
-	off *smt.Term
-	n   *smt.Term
+	c         *ByteFn
+	off       *smt.Term
+	n         *smt.Term
+	committed bool // already-flushed bytes of an appended donor: not subject to MallocAck
 }
 
 type ropeVal struct {
